@@ -300,8 +300,7 @@ Qed.
 Lemma vlgrad_length (v : varR) x c : length (vlgrad Rops v x c) = dim v.
 Proof.
   unfold vlgrad, dim. destruct (v_kind v); try reflexivity.
-  - destruct (nltb Rops (n0 Rops) (dot3 Rops x c) &&
-              nltb Rops (nsub Rops (n1 Rops) (nmul Rops (dot3 Rops x c) (dot3 Rops x c))) (tiny28 Rops)); reflexivity.
+  - destruct (nltb Rops (nsub Rops (n1 Rops) (nmul Rops (dot3 Rops x c) (dot3 Rops x c))) (tiny28 Rops)); reflexivity.
   - cbv zeta. destruct (nltb Rops (nabs Rops (nsin Rops (nacos Rops (clamp1 Rops (dot4 Rops x c))))) (tiny14 Rops)); reflexivity.
   - unfold lgradN. rewrite map_length, seq_length. reflexivity.
 Qed.
